@@ -3366,6 +3366,13 @@ yin_parse_element_generic(struct lysp_yin_ctx *ctx, enum ly_stmt parent_stmt, st
 
         /* read closing tag */
         LY_CHECK_GOTO(ret = lyxml_ctx_next(ctx->xmlctx), cleanup);
+        if (ctx->xmlctx->status != LYXML_ELEM_CLOSE) {
+            /* mixed content */
+            LOGVAL_PARSER((struct lysp_ctx *)ctx, LYVE_SYNTAX_YIN, "Unexpected child element \"%.*s\" after the text content of \"%s\".",
+                    (int)ctx->xmlctx->name_len, ctx->xmlctx->name, (*element)->stmt);
+            ret = LY_EVALID;
+            goto cleanup;
+        }
     }
 
 cleanup:
